@@ -140,6 +140,11 @@ func catalog(p ScenParams) *WSpec {
 		w.Procs = []ProcSpec{src, pp, simpleProc("q", kind)}
 		w.Edges = []Edge{fe("src", "out", "p", "in"), fe("p", "o1", "q", "in")}
 		w.PartialUnits = []string{"o1"}
+	case "g7c": // two-output task upstream of the DRIVER: o1 -> last (no out-ports), o2 consumed by nobody (drained by the sink)
+		pp := ProcSpec{Name: "p", Kind: kind, Ins: []string{"in"}, Outs: []OutSpec{{Name: "o1", Pattern: "{i:in}.o1"}, {Name: "o2", Pattern: "{i:in}.o2"}}}
+		last := ProcSpec{Name: "last", Kind: kind, Ins: []string{"in"}}
+		w.Procs = []ProcSpec{src, pp, last}
+		w.Edges = []Edge{fe("src", "out", "p", "in"), fe("p", "o1", "last", "in")}
 	case "g8": // parameter port (fed by FromStr) + file port
 		pp := ProcSpec{Name: "p", Kind: kind, Ins: []string{"in"}, Params: []string{"a"}, Outs: []OutSpec{{Name: "out", Pattern: "{i:in}.{p:a}.p"}}}
 		vals := []string{}
@@ -197,6 +202,15 @@ func catalog(p ScenParams) *WSpec {
 		spl := ProcSpec{Name: "sp", Kind: "psplit"}
 		w.Procs = []ProcSpec{src, ps, spl, pp}
 		w.Edges = []Edge{fe("src", "out", "p", "in"), {From: "ps", FromPort: "out", To: "sp", ToPort: "in", Param: true}, {From: "sp", FromPort: "out", To: "p", ToPort: "a", Param: true}}
+	case "g8i": // a process WITHOUT file in-ports whose parameter comes from a process: ps -> gen.a ; gen.out -> fin.in -> extra.in
+		gen := ProcSpec{Name: "gen", Kind: kind, Params: []string{"a"}, Outs: []OutSpec{{Name: "out", Pattern: "{p:a}.gen"}}}
+		vals := []string{}
+		for i := 0; i < p.Items; i++ {
+			vals = append(vals, fmt.Sprintf("v%d", i))
+		}
+		ps := ProcSpec{Name: "ps", Kind: "psrc", Items: vals}
+		w.Procs = []ProcSpec{ps, gen, simpleProc("fin", kind), simpleProc("extra", kind)}
+		w.Edges = []Edge{{From: "ps", FromPort: "out", To: "gen", ToPort: "a", Param: true}, fe("gen", "out", "fin", "in"), fe("fin", "out", "extra", "in")}
 	case "g8b": // parameter port fed by a ParamSource process
 		pp := ProcSpec{Name: "p", Kind: kind, Ins: []string{"in"}, Params: []string{"a"}, Outs: []OutSpec{{Name: "out", Pattern: "{i:in}.{p:a}.p"}}}
 		vals := []string{}
@@ -257,6 +271,11 @@ func catalog(p ScenParams) *WSpec {
 		tg := ProcSpec{Name: "tg", Kind: "tagger", TagKey: "k", Ins: []string{"in"}}
 		w.Procs = []ProcSpec{src, simpleProc("p", kind), tg, simpleProc("c", kind)}
 		w.Edges = []Edge{fe("src", "out", "p", "in"), fe("p", "out", "tg", "in"), fe("p", "out", "c", "in")}
+	case "g14d": // two tagging steps DIRECTLY in series: src -> p -> tg -> tg2 -> d
+		tg1 := ProcSpec{Name: "tg", Kind: "tagger", TagKey: "k", Ins: []string{"in"}}
+		tg2 := ProcSpec{Name: "tg2", Kind: "tagger", TagKey: "k2", Ins: []string{"in"}}
+		w.Procs = []ProcSpec{src, simpleProc("p", kind), tg1, tg2, simpleProc("d", kind)}
+		w.Edges = []Edge{fe("src", "out", "p", "in"), fe("p", "out", "tg", "in"), fe("tg", "out", "tg2", "in"), fe("tg2", "out", "d", "in")}
 	case "g14a": // tagging alone in a chain
 		tg := ProcSpec{Name: "tg", Kind: "tagger", TagKey: "k", Ins: []string{"in"}}
 		w.Procs = []ProcSpec{src, simpleProc("p", kind), tg, simpleProc("d", kind)}
